@@ -376,6 +376,50 @@ def catalogue(rng, level=0, classes=None):
         add("SphericalGradient", dict(c), lambda c=c: SphericalGradient(
             c["shape"], axes=c.get("axes"), center=c.get("center"), azimuthal=c.get("azimuthal", True), polar=c.get("polar", True),
             radial=c.get("radial", True), cdiff=c.get("cdiff", False), input_dtype=F64), kind=APPROX, group="SphericalGradient(axes)")
+    # the same projected gradients on complex arrays (complex-linear maps), and with the origin on a voxel centre
+    add("PolarGradient", dict(shape=(3, 4), dtype="complex128"), lambda: PolarGradient((3, 4), input_dtype=C128),
+        kind=APPROX, group="ProjectedGradient(complex)")
+    add("PolarGradient", dict(shape=(3, 3), dtype="complex128", axes=(1, 0)), lambda: PolarGradient((3, 3), axes=(1, 0), input_dtype=C128),
+        kind=APPROX, group="ProjectedGradient(complex)")
+    add("CylindricalGradient", dict(shape=(3, 3, 2), dtype="complex128"), lambda: CylindricalGradient((3, 3, 2), input_dtype=C128),
+        kind=APPROX, group="ProjectedGradient(complex)")
+    add("SphericalGradient", dict(shape=(2, 3, 2), dtype="complex128"), lambda: SphericalGradient((2, 3, 2), input_dtype=C128),
+        kind=APPROX, group="ProjectedGradient(complex)")
+    add("SphericalGradient", dict(shape=(3, 3, 3), dtype="complex128", axes=(2, 0, 1)),
+        lambda: SphericalGradient((3, 3, 3), axes=(2, 0, 1), input_dtype=C128), kind=APPROX, group="ProjectedGradient(complex)")
+    add("SphericalGradient", dict(shape=(3, 5, 3)), lambda: SphericalGradient((3, 5, 3), input_dtype=F64),
+        kind=APPROX, group="ProjectedGradient(origin on a voxel)")
+    add("SphericalGradient", dict(shape=(4, 4, 4), center=(2.0, 1.0, 1.0)),
+        lambda: SphericalGradient((4, 4, 4), center=(2.0, 1.0, 1.0), input_dtype=F64), kind=APPROX, group="ProjectedGradient(origin on a voxel)")
+    add("CylindricalGradient", dict(shape=(3, 3, 2), center=(1.0, 1.0, 1.0)),
+        lambda: CylindricalGradient((3, 3, 2), center=(1.0, 1.0, 1.0), input_dtype=F64), kind=APPROX, group="ProjectedGradient(origin on a voxel)")
+    add("PolarGradient", dict(shape=(3, 5)), lambda: PolarGradient((3, 5), input_dtype=F64), kind=APPROX,
+        group="ProjectedGradient(origin on a voxel)")
+    # diagonal stacks whose input and output collapse differently (inputs in blocks / outputs stacked and vice versa)
+    for dt in dts:
+        A2 = rand_dyadic_np(rng, (2, 3), cplx=is_complex(dt)).astype(dt)
+        B2 = rand_dyadic_np(rng, (2, 4), cplx=is_complex(dt)).astype(dt)
+        C2 = rand_dyadic_np(rng, (3, 3), cplx=is_complex(dt)).astype(dt)
+        for (ci, co) in [(True, True), (False, True), (True, False)]:
+            add("DiagonalStack", dict(kind="blocks-in/stack-out", collapse_input=ci, collapse_output=co, dtype=np.dtype(dt).name,
+                                      A=repr(A2.tolist()), B=repr(B2.tolist())),
+                lambda A2=A2, B2=B2, ci=ci, co=co: linop.DiagonalStack(
+                    [linop.MatrixOperator(snp.array(A2)), linop.MatrixOperator(snp.array(B2))], collapse_input=ci, collapse_output=co),
+                group="DiagonalStack(mixed collapse)")
+            add("DiagonalStack", dict(kind="stack-in/blocks-out", collapse_input=ci, collapse_output=co, dtype=np.dtype(dt).name,
+                                      A=repr(A2.tolist()), C=repr(C2.tolist())),
+                lambda A2=A2, C2=C2, ci=ci, co=co: linop.DiagonalStack(
+                    [linop.MatrixOperator(snp.array(A2)), linop.MatrixOperator(snp.array(C2))], collapse_input=ci, collapse_output=co),
+                group="DiagonalStack(mixed collapse)")
+    add("DiagonalStack", dict(kind="identity+sum", dtype="float64"),
+        lambda: linop.DiagonalStack([linop.Identity((3, 4), input_dtype=F64), linop.Sum((2, 3, 4), axis=0, input_dtype=F64)]),
+        group="DiagonalStack(mixed collapse)")
+    # DFT with axes not in increasing order (incl. negative indices) paired with an axes_shape
+    for (shp, axes, axshape, norm) in [((2, 3, 2), (2, 0), (3, 4), None), ((3, 2), (-1, 0), (4, 2), "forward"),
+                                       ((2, 2, 3), (1, 0), (4, 1), "ortho"), ((3, 2, 2), (2, 1), None, None)]:
+        add("DFT", dict(shape=shp, axes=axes, axes_shape=axshape, norm=norm),
+            lambda shp=shp, axes=axes, axshape=axshape, norm=norm: linop.DFT(shp, axes=axes, axes_shape=axshape, norm=norm),
+            kind=APPROX, group="DFT(axes order)")
     return out
 
 
